@@ -78,6 +78,7 @@ class Harness:
         self.n += 1
         d = self.dir / ("f%d" % self.n)
         d.mkdir()
+        (d / "sub").mkdir()
         return d
 
     def expected(self, txt):
@@ -96,7 +97,8 @@ class Harness:
     def call(self, folder, txt, **kw):
         want = self.expected(txt)
         try:
-            t = self.parser.parse(txt, model_cache_folder=folder, **kw)
+            # the same folder, optionally in a spelling that is not its canonical path
+            t = self.parser.parse(txt, model_cache_folder=(folder / "sub" / "..") if getattr(self, "noncanonical", False) else folder, **kw)
             got = ("value", None if t is None else struct(t))
         except Exception as e:
             got = ("raises", type(e).__name__ + ": " + str(e)[:80])
@@ -274,7 +276,8 @@ def main():
                 raise StopIteration
         # ---- directed scenarios: fault x {database checked earlier by this process, fresh module}
         for kind in FAULTS:
-            for checked_before in (True, False):
+            for checked_before in (True, False, "noncanonical-spelling"):
+                H.noncanonical = checked_before == "noncanonical-spelling"
                 for ti in (0, len(TEXTS), len(TEXTS) + len(BROKEN)):
                     H.pymoca.__version__ = H.real_version if not H.real_version.endswith(".dirty") else "0.0"
                     H.parser.time = H.real_time
@@ -285,6 +288,8 @@ def main():
                     for step in (("parse", 0), ("parse", 1), ("parse", ti)):
                         hist.append("parse(text%d)" % step[1])
                         bad = bad or H.call(folder, texts[step[1]])
+                    if H.noncanonical:
+                        hist.append("(cache folder given as <folder>/sub/..)")
                     if not checked_before:
                         H.fault(folder, "module-reload", rng)
                         hist.append("module-reload")
@@ -301,6 +306,7 @@ def main():
                     shutil.rmtree(folder, ignore_errors=True)
                     if failures and not bounded:
                         raise StopIteration
+        H.noncanonical = False
         # ---- random histories
         n_hist, n_ops = (400, 30) if tier == "thorough" else (60, 14)
         for _ in range(n_hist):
